@@ -44,7 +44,7 @@ class Result:
 
 def run_worker(kind, *, build, messages, worker_kw=None, stop_at=None, stop_mode="signal",
                buckets=None, bucket_kind=None, deviations=None, settle=2.0, pre=None, during=None,
-               max_iters=400_000, clients=1, queues=("q",), inject=None, configure=None):
+               max_iters=400_000, clients=1, queues=("q",), inject=None, configure=None, fail_calls=None):
     """build(x, worker) registers actors; messages: list of dicts(id, topic, queue, payload, params,
     prio).  The worker is stopped by SIGTERM at virtual time `stop_at` (relative to its start)
     unless it stops by itself (messages_limit)."""
@@ -54,6 +54,8 @@ def run_worker(kind, *, build, messages, worker_kw=None, stop_at=None, stop_mode
     try:
         if configure is not None:
             configure(x)
+        if fail_calls:
+            w.fail_calls = set(map(tuple, fail_calls))
         wk = dict(graceful_shutdown_time=0.5)
         wk.update(worker_kw or {})
         worker = x.worker(**wk)
